@@ -29,9 +29,13 @@
      CAL_Regex     "id-like" is the regular expression [0-9a-f]{32}; the specification abstracts it as
                    membership in Ids (the name alphabet contains a 31-digit and an upper-case
                    near-miss which are NOT id-like).
-   Generator + tiny behaviours: every initial state is one (tree, query); InitExisting / InitCreate
-   are the init_project steps (at most two in a row) after PickQuery.  Expected answers are exported as NDJSON by the
-   POSTCONDITION, grouped by tree.                                                               *)
+   Generator + tiny behaviours: every initial state is one tree, PickQuery chooses the query path,
+   InitExisting / InitCreate are the init_project steps (at most two in a row).  Expected answers are
+   exported as NDJSON by the POSTCONDITION, grouped by tree (MODE = "gen"); with MODE = "file" the trees
+   and the answers observed on the real code come from the harness and TLC judges them (Judge).
+
+   Bound: named nodes have depth <= 5; the (empty) workspace directory every initialised project has may
+   stand at depth 6.  Nothing above the root is a project (checked by the harness on the real sandbox). *)
 EXTENDS Naturals, Sequences, FiniteSets, TLC, Json, IOUtils, SequencesExt, FiniteSetsExt
 
 CONSTANTS DEPTH,       \* maximal depth of the spine family (<= 5)
